@@ -335,13 +335,17 @@ bool parse_normal_range(Hunk& hunk, const std::string& line)
         // If this is the second comma that was found, this must be a change command.
         if (has_first_comma && command != 'c')
             return false;
+        // Nothing is left of what is removed, there is no range of lines for that in the new file.
+        if (command == 'd')
+            return false;
         if (!parser.consume_line_number(new_range_end_line))
             return false;
     } else {
         new_range_end_line = hunk.new_file_range.start_line;
     }
 
-    hunk.new_file_range.number_of_lines = new_range_end_line - hunk.new_file_range.start_line + 1;
+    // NOTE: a range which ends before it starts has no lines in it (rather than less than none).
+    hunk.new_file_range.number_of_lines = std::max<LineNumber>(new_range_end_line - hunk.new_file_range.start_line + 1, 0);
     if (command == 'd')
         --hunk.new_file_range.number_of_lines;
 
